@@ -87,7 +87,7 @@ func (fc *FnCtx) zeroOffsets(st *State, v Val, depth int) Val {
 	}
 	switch x := v.(type) {
 	case VSlice:
-		if isByteElem(x.Elem) {
+		if isHeapElem(x.Elem) {
 			fc.axiom(eq(x.Off, mkInt(0)))
 			x.Off = mkInt(0)
 			return x
@@ -161,7 +161,7 @@ func (fc *FnCtx) initFrame(st *State) {
 		inMod = inMod || covered(path)
 		switch x := v.(type) {
 		case VSlice:
-			if inMod && isByteElem(x.Elem) {
+			if inMod && isHeapElem(x.Elem) {
 				if !strings.Contains(path, ".") {
 					fa.wins = append(fa.wins, heapWindow{x.Rgn, x.Off, add(x.Off, x.Cap)})
 				} else {
